@@ -93,6 +93,12 @@ UNBALANCED_SPECIAL = [
     "CCC(=O)OC>>CO",
     "CS(=O)(=O)OC.CC(=O)OC>>CC(=O)O",
     "BrBr>>Cl",
+    # MCS imputation succeeds but an element without any rule stays unbalanced (declined at the very end)
+    "CC(=O)OCC>>CC(=O)[O-].[Cs+]", "COC(=O)c1ccccc1>>[O-]C(=O)c1ccccc1.[Cs+]", "CCOC(=O)CC>>CCC(=O)O.[Ag]",
+    "CC(=O)OC>>CC(=O)[O-].[Rb+]", "CC(=O)Nc1ccccc1>>Nc1ccccc1.[Tl+]", "CCOC(C)=O.[Au]>>CC(=O)O", "CC(=O)OCC.[Xe]>>CCO",
+    "CC(=O)OCC>>CCO.[Se]", "CC(=O)OCC>>CC(=O)O.[Cd+2]", "CC(=O)OC(C)C>>CC(C)O.[Te]",
+    # rule-based completion possible only partly / leftover after the second pass
+    "CCCl.[Cs]>>CC", "CCBr>>CCO.[Ag+]", "CC(=O)Cl.CO>>CC(=O)OC.[Rb+]", "CCO.[Sr]>>CC=O",
 ]
 
 
